@@ -20,9 +20,18 @@ from ..helper.number import to_number
 from .._compat import string_types
 
 
+def text_arg(value):
+    """ The text a text function works on, as & joins it: a one-cell range ([[v]]) or one-item array
+    is its item, a blank the empty text, a whole number its digits.  An error value is handed back. """
+    value = utils.single(value)
+    if isinstance(value, error.XLError):
+        return value
+    return text_of(value)
+
+
 @dispatcher.register_for('CHAR')
 def CHAR(number):
-    number = utils.parse_integer(number)
+    number = utils.parse_integer(utils.single(number))
     if isinstance(number, error.XLError):
         return number
     return chr(number)
@@ -30,17 +39,17 @@ def CHAR(number):
 
 @dispatcher.register_for('CODE')
 def CODE(char):
+    char = text_arg(char)
+    if isinstance(char, error.XLError):
+        return char
     return ord(char)
 
 
 @dispatcher.register_for('CLEAN')
 def CLEAN(text):
+    text = text_arg(text)
     if isinstance(text, error.XLError):
         return text
-    if text is None:
-        text = ''
-    if not isinstance(text, string_types):
-        text = str(text)
     return ''.join(c for c in text if ord(c) > 31)
 
 
@@ -60,43 +69,33 @@ def CONCATENATE(*args):
 
 @dispatcher.register_for('LEN', 'LENB')
 def LEN(text):
+    text = text_arg(text)
     if isinstance(text, error.XLError):
         return text
-    if text is None:
-        return 0
-    return len(text_of(text))
+    return len(text)
 
 
 @dispatcher.register_for('LOWER')
 def LOWER(text):
+    text = text_arg(text)
     if isinstance(text, error.XLError):
         return text
-    if text is None:
-        text = ''
-    if not isinstance(text, string_types):
-        text = str(text)
     return text.lower()
 
 
 @dispatcher.register_for('UPPER')
 def UPPER(text):
+    text = text_arg(text)
     if isinstance(text, error.XLError):
         return text
-    if text is None:
-        text = ''
-    if not isinstance(text, string_types):
-        text = str(text)
     return text.upper()
 
 
 @dispatcher.register_for('PROPER')
 def PROPER(text):
+    text = text_arg(text)
     if isinstance(text, error.XLError):
         return text
-    if text is None:
-        text = ''
-    if not isinstance(text, string_types):
-        text = str(text)
     # str.title() takes a combining mark or modifier letter for the end of a word; the capital forms of some letters
     # are written with one (dotted capital I in lower case is i + dot above), so that a second
     # PROPER capitalised the letter after it
@@ -114,15 +113,18 @@ def PROPER(text):
 @dispatcher.register_for('SUBSTITUTE')
 def SUBSTITUTE(text, old_text, new_text, instance_num=DEFAULT):
     if instance_num is not DEFAULT:
-        instance_num = utils.parse_number(instance_num)
+        instance_num = utils.parse_number(utils.single(instance_num))
         if isinstance(instance_num, error.XLError):
             return instance_num
         if instance_num <= 0:
             return error.VALUE
-    if new_text is None:
-        new_text = ''
+    given = text
+    text, old_text, new_text = text_arg(text), text_arg(old_text), text_arg(new_text)
+    for value in (text, old_text, new_text):
+        if isinstance(value, error.XLError):
+            return value
     if not text or not old_text:
-        return text
+        return given if isinstance(given, string_types) or given is None else text
     if instance_num is DEFAULT:
         return text.replace(old_text, new_text)
     else:
@@ -138,6 +140,7 @@ def SUBSTITUTE(text, old_text, new_text, instance_num=DEFAULT):
 
 @dispatcher.register_for('TEXTJOIN')
 def TEXTJOIN(delimiter, ignore_empty, *args):
+    delimiter = utils.single(delimiter)
     if not isinstance(delimiter, string_types):
         return error.VALUE
     ignore_empty = utils.single(ignore_empty)
@@ -156,9 +159,10 @@ def TEXTJOIN(delimiter, ignore_empty, *args):
 
 @dispatcher.register_for('LEFT', 'LEFTB')
 def LEFT(text, num_chars=1):
-    num_chars = utils.parse_integer(num_chars)
+    num_chars = utils.parse_integer(utils.single(num_chars))
     if isinstance(num_chars, error.XLError):
         return num_chars
+    text = text_arg(text)
     if num_chars < 0 or not isinstance(text, string_types):
         return error.VALUE
     return text[:num_chars]
@@ -166,9 +170,10 @@ def LEFT(text, num_chars=1):
 
 @dispatcher.register_for('RIGHT', 'RIGHTB')
 def RIGHT(text, num_chars=1):
-    num_chars = utils.parse_integer(num_chars)
+    num_chars = utils.parse_integer(utils.single(num_chars))
     if isinstance(num_chars, error.XLError):
         return num_chars
+    text = text_arg(text)
     if num_chars < 0 or not isinstance(text, string_types):
         return error.VALUE
     if num_chars == 0:
@@ -178,10 +183,11 @@ def RIGHT(text, num_chars=1):
 
 @dispatcher.register_for('MID', 'MIDB')
 def MID(text, start_num, num_chars=1):
-    start_num = utils.parse_integer(start_num)
-    num_chars = utils.parse_integer(num_chars)
+    start_num = utils.parse_integer(utils.single(start_num))
+    num_chars = utils.parse_integer(utils.single(num_chars))
     if utils.any_is_error((start_num, num_chars)):
         return error.VALUE
+    text = text_arg(text)
     if start_num < 1 or num_chars < 0 or not isinstance(text, string_types):
         return error.VALUE
     return text[start_num - 1:][:num_chars]
@@ -287,6 +293,7 @@ def TEXT(value, format_text):
 
 @dispatcher.register_for('TRIM')
 def TRIM(value):
+    given, value = value, utils.single(value)
     if not isinstance(value, string_types):
-        return value
+        return given
     return re.sub(' {2,}', ' ', value).strip(' ')
